@@ -5,7 +5,7 @@ hid, files = sys.argv[1], sys.argv[2:]
 wt = f"/tmp/harmless_{hid}"
 print(f"""You are helping to evaluate a verification harness for FALSE ALARMS by making ONE realistic, behaviour-PRESERVING refactoring of a Go code base. You work independently: do NOT read, list or use anything under /verif, and do not touch /repo itself.
 
-Code base: usnistgov/dastard (NIST data-acquisition server for TES microcalorimeters, Go 1.23). Your own scratch git worktree: {wt} (work ONLY inside it; do not commit; no network: always `export GOFLAGS=-mod=mod GOPROXY=off GOSUMDB=off GOTOOLCHAIN=local`).
+Code base: usnistgov/dastard (NIST data-acquisition server for TES microcalorimeters, Go 1.23). Your own scratch git worktree: {wt} (work ONLY inside it; do not commit; never use `git stash` (the stash is shared by all worktrees of /repo: use `git diff > file`, `git checkout -- <files>` and `git apply file` instead); no network: always `export GOFLAGS=-mod=mod GOPROXY=off GOSUMDB=off GOTOOLCHAIN=local`).
 
 Refactor the NON-test code in: {', '.join(files)} (you may touch closely related files when the refactoring requires it). Make a moderately sized clean-up of the kind a maintainer commits routinely, touching several functions: rename local variables and private helpers, extract or inline helper functions, reorder statements that are independent, change loop forms (index loop <-> range), replace hand-written code by equivalent standard-library calls, hoist or sink computations WITHOUT changing their values, pre-size slices, reword comments and LOG messages, add an unused private helper or field. 40-200 changed lines.
 
